@@ -67,6 +67,12 @@ _t("enumfalsy", {"type": "string", "enum": ["", "asc", "desc"]}, ["", "asc"], le
 _t("intenumzero", {"type": "integer", "enum": [0, 1, 2]}, [0, 2], leaf("intenum"))
 _t("nullenumfalsy", {"type": "string", "nullable": True, "enum": ["", "asc", "desc", None]}, ["", None], leaf("enum"))
 _t("nullintenumzero", {"type": "integer", "nullable": True, "enum": [0, 1, 2, None]}, [0, None], leaf("intenum"))
+# magnitudes at which a representation change (float, 32 / 64 bit) would show
+_t("bigint", {"type": "integer", "format": "int64"}, [2**53 + 1, 9223372036854775807], leaf("int"))
+_t("negbigint", {"type": "integer", "format": "int64"}, [-(2**53) - 1, -9223372036854775808], leaf("int"))
+_t("int32edge", {"type": "integer", "format": "int32"}, [2147483647, -2147483648], leaf("int"))
+_t("extremenum", {"type": "number"}, [1.7976931348623157e308, 5e-324], leaf("num"))
+_t("listbigint", {"type": "array", "items": {"type": "integer"}}, [[2**53 + 1, 1234567890123456789], [0]], {"k": "list", "p": "", "of": [leaf("int")], "fields": []})
 _t("zero", {"type": "integer"}, [0, 0], leaf("int"))
 _t("emptystr", {"type": "string"}, ["", ""], leaf("str"))
 _t("zeronum", {"type": "number"}, [0.0, 0.0], leaf("num"))
@@ -83,9 +89,11 @@ def tag(j: Any) -> dict:
         return {"t": "z", "v": "", "items": [], "keys": []}
     if isinstance(j, bool):
         return {"t": "b", "v": "true" if j else "false", "items": [], "keys": []}
-    if isinstance(j, (int, float)):
-        v = float(j)
-        return {"t": "n", "v": str(int(v)) if v == int(v) else repr(v), "items": [], "keys": []}
+    if isinstance(j, int):
+        return {"t": "n", "v": str(j), "items": [], "keys": []}   # exact: integers beyond 2**53 must not pass through a float
+    if isinstance(j, float):
+        v = j
+        return {"t": "n", "v": str(int(v)) if (v == v and abs(v) < 1e15 and v == int(v)) else repr(v), "items": [], "keys": []}
     if isinstance(j, str):
         return {"t": "s", "v": j, "items": [], "keys": []}
     if isinstance(j, list):
